@@ -40,4 +40,15 @@ theorem close_wait_suppresses_timeout_holds : close_wait_suppresses_timeout = tr
 /-- … and the `NotRunningException` of a close overtaken by another one during start-up (fix 25230c1; false before) -/
 theorem close_wait_suppresses_not_running_holds : close_wait_suppresses_not_running = true := by decide
 
+/-! the cancellations / closings the close path performs, as statements found in the source -/
+theorem engine_close_cancels_cleanup_holds : engine_close_cancels_cleanup = true := by decide
+/-- the transports are closed (`close()`), not aborted -/
+theorem shutdown_closes_transports_holds : (shutdown_closes_transports && !shutdown_aborts_transports) = true := by decide
+theorem close_cancels_tracked_browsers_holds : close_cancels_tracked_browsers = true := by decide
+theorem browser_cancel_stops_scheduler_holds : browser_cancel_stops_scheduler = true := by decide
+theorem browser_cancel_removes_listener_holds : browser_cancel_removes_listener = true := by decide
+theorem scheduler_stop_cancels_timer_holds : scheduler_stop_cancels_timer = true := by decide
+/-- `connection_lost` leaves `_deferred` and `_timers` alone (it does nothing) -/
+theorem connection_lost_is_noop_holds : connection_lost_is_noop = true := by decide
+
 end Zc.GenFacts.Shutdown
